@@ -216,6 +216,15 @@ func TestC07(t *testing.T) {
 		present("halves-swapped", tk.fac, b+":"+a, now)
 		present("extended", tk.fac, tk.text+"AAAA", now)
 		present("extended-nonce", tk.fac, "AAAA"+tk.text, now)
+		// further fields, separators and white space around a valid token
+		for _, tail := range []string{":", "::", ":x", ":AAAA", ":" + b, ":" + a + ":" + b, " ", "\n", "=", ":=", "\x00", "%3A"} {
+			present("extended-field", tk.fac, tk.text+tail, now)
+		}
+		for _, head := range []string{":", " ", "x:", a + ":", "\n"} {
+			present("prefixed-field", tk.fac, head+tk.text, now)
+		}
+		present("middle-field", tk.fac, a+"::"+b, now)
+		present("middle-field", tk.fac, a+":x:"+b, now)
 	}
 	// 5. every nonce/ciphertext splice between two tokens (incl. across instances)
 	for i, x := range toks {
